@@ -132,6 +132,164 @@ def sort_model(shapes):
     return out
 
 
+def shape_map_family(ctx, rng, n, kf, tmpdir, stats, viol, dis, reproduced):
+    """shape-map selection: the nodes behind each label are the nodes the selectors denote, the shapes are the model's for that
+    selection, every figure is exact for it (Lean Spec); used by C10 (own) and, with a few cases, by C01 / C02 whose properties also
+    hold for shape-map targets -> (sm_cases, nontriv)"""
+    nontriv = 0
+    # ---------- part 2: shape maps
+    from shexer.shaper import Shaper
+    lines = []
+    sm_cases = []
+    for i in range(n):
+        g = [t for t in gen.gen_graph(rng, bnodes=False) if t[0][0] == 'I' and t[2][0] != 'B']
+        if not g:
+            continue
+        if rng.random() < 0.4:
+            # local names with ':' inside (legal in prefixed names: ex:item:42)
+            ren = lambda t: ('I', t[1].replace(EX + 'n', EX + 'it:')) if t[0] == 'I' else t
+            g = [(ren(s_), p_, ren(o_)) for s_, p_, o_ in g]
+        ns = dict(DEFAULT_NS)
+        if rng.random() < 0.4:
+            # prefixes that are string prefixes of other declared prefixes, declared first ('e' before 'ex', 'r' before 'rdf', 's' before 'sx')
+            ns = dict([('http://short.example.org/e/', 'e'), ('http://short.example.org/r/', 'r'), ('http://short.example.org/s/', 's')] + list(ns.items()))
+        ns[SH_NS] = 'sx'
+        prefixes = {p: nsp for nsp, p in ns.items()}
+        classes = gen.classes_of(g)
+        items = [gen_item(rng, g, ns, classes, k) for k in range(rng.randint(1, 3))]
+        if len(items) >= 2 and rng.random() < 0.3:
+            # two items with the SAME label (and possibly overlapping selectors): the shape is built from the union, each node once
+            items[1] = (items[1][0], items[0][1], items[1][2])
+        cfg = gen.gen_cfg(rng, g, presentation=False, allow_cap=False, allow_ignore=False)
+        cfg['report'] = 'mixed'
+        cfg['disable_comments'] = False
+        cfg['ns_dict'] = ns
+        cfg['targets'] = None
+        cfg['target_mode'] = 'all' if rng.random() < 0.25 else 'shapemap'
+        stats["mixed_mode"] += cfg['target_mode'] == 'all'
+        syntax = rng.choice(['fsm', 'fsm', 'json'])
+        delivery = rng.choice(['raw', 'file'])
+        stats["syntax"][syntax] = stats["syntax"].get(syntax, 0) + 1
+        stats["delivery"][delivery] = stats["delivery"].get(delivery, 0) + 1
+        for rs, rl, ab in items:
+            k = 'sparql' if rs.startswith('SPARQL') else ab[0]
+            stats["selector_kinds"][k] = stats["selector_kinds"].get(k, 0) + 1
+            stats["ghost_nodes"] += ab == ('node', EX + "ghost")
+        stats["items"] += len(items)
+        if syntax == 'fsm':
+            text = "# shape map\n" + "".join("%s@%s%s\n" % (rs, rl, "," if rng.random() < 0.5 else "") for rs, rl, ab in items) + "\n"
+        else:
+            text = json.dumps([{"nodeSelector": rs, "shapeLabel": rl} for rs, rl, ab in items])
+        kw = impl.shaper_kwargs(cfg)
+        kw.pop('all_classes_mode', None)
+        kw['all_classes_mode'] = cfg['target_mode'] == 'all'
+        kw['shape_map_format'] = C.FIXED_SHAPE_MAP if syntax == 'fsm' else C.JSON
+        if delivery == 'raw':
+            kw['shape_map_raw'] = text
+        else:
+            path = os.path.join(tmpdir, "sm%d.txt" % i)
+            open(path, "w").write(text)
+            kw['shape_map_file'] = path
+        try:
+            sh = Shaper(raw_graph=to_nt(g), input_format=C.NT, **kw)
+            out = sh.shex_graph(string_output=True, acceptance_threshold=cfg['th'][0] / cfg['th'][1])
+            got_sel = {k: list(v[0]) for k, v in sh._target_classes_dict.items()}
+            parsed = shex_text.parse(out)
+        except Exception as e:
+            viol.append({"what": "no result with a shape map: %s %s" % (type(e).__name__, str(e)[:150]), "shape_map": text,
+                         **pipeline.case_json(g, cfg)})
+            continue
+        exp_sel = expected_selection(g, items, cfg, prefixes)
+        if {k: sorted(v) for k, v in got_sel.items()} != {k: sorted(v) for k, v in exp_sel.items()}:
+            obs = {"kind": "selection", "got": got_sel, "expected": dict(exp_sel), "cfg": cfg, "triples": g, "items": items}
+            fid = F.match(kf, obs)
+            if fid:
+                reproduced.add(fid)
+            else:
+                viol.append({"what": "the nodes behind the shapes are not the nodes the shape map denotes",
+                             "shape_map": text, "selected": {k: v for k, v in got_sel.items()}, "denoted": dict(exp_sel),
+                             **pipeline.case_json(g, cfg)})
+            continue
+        nontriv += len(exp_sel) >= 2
+        sm_cases.append((g, cfg, items, prefixes, exp_sel, parsed, out, text, got_sel))
+    # model: resolve + shapes; spec: figures for the denoted selection
+    if ctx.driver_ok and sm_cases:
+        lines = []
+        for j, (g, cfg, items, prefixes, exp_sel, parsed, out, text, got_sel) in enumerate(sm_cases):
+            mcfg = dict(cfg)
+            if mcfg['target_mode'] != 'all':
+                mcfg['target_mode'] = 'none'
+            body = model.case_lines(g, mcfg, 'resolve', "r%d" % j)
+            extra = ["PX\t%s\t%s" % (p, nsp) for p, nsp in prefixes.items()]
+            for rs, rl, ab in items:
+                if rs.startswith("SPARQL"):
+                    extra.append("SMR\t%s\t%s\t%s" % (rs.replace("\t", " "), rl, "|".join(denote_rows(g, ab))))
+                else:
+                    extra.append("SM\t%s\t%s" % (rs, rl))
+            lines += body[:-1] + extra + body[-1:]
+            # the shapes for the selection in the implementation's own dictionary order (selector rows come from rdflib
+            # in an unspecified order; ties in the merge stages are decided by that order)
+            body2 = model.case_lines(g, mcfg, 'shapessel', "s%d" % j)
+            sel_lines = ["SEL\t%s\t%s" % (n_, "|".join(labs)) for n_, labs in got_sel.items()]
+            lines += body2[:-1] + extra + sel_lines + body2[-1:]
+        res = model.run_driver(lines)
+        for j, (g, cfg, items, prefixes, exp_sel, parsed, out, text, got_sel) in enumerate(sm_cases):
+            msel = {}
+            for ln in res.get("r%d" % j, []):
+                f = ln.split("\t")
+                if f[0] == 'SEL':
+                    msel[f[1]] = sorted(f[2].split("|")) if f[2] else []
+            if msel != {k: sorted(v) for k, v in exp_sel.items()}:
+                dis.append({"what": "Targets.resolve (model) vs the selection the implementation computed", "model": msel,
+                            "impl": {k: sorted(v) for k, v in exp_sel.items()}, "shape_map": text, **pipeline.case_json(g, cfg)})
+                continue
+            ml = res.get("s%d" % j, [])
+            if ml == ["ERR"]:
+                dis.append({"what": "model rejects a shape map the implementation accepts", "shape_map": text, **pipeline.case_json(g, cfg)})
+                continue
+            d = compare.compare(model.parse_shapes(ml), parsed, cfg)
+            if d:
+                dis.append({"what": "Shexer.runSel (model) vs implementation with a shape map", "diffs": d[:5], "shape_map": text,
+                            "shexc": out, **pipeline.case_json(g, cfg)})
+    if ctx.spec_ok and sm_cases:
+        lines = []
+        allfacts = []
+        for j, (g, cfg, items, prefixes, exp_sel, parsed, out, text, got_sel) in enumerate(sm_cases):
+            lm = {}
+            for n_, labs in exp_sel.items():
+                for lab in labs:
+                    lm.setdefault(model_label_iri(lab, cfg), []).append(lab) if lab not in lm.get(model_label_iri(lab, cfg), []) else None
+            facts = oracle.facts_of(parsed, cfg, lm)
+            allfacts.append(facts)
+            body = model.case_lines(g, oracle.spec_cfg(cfg), 'spec', "q%d" % j)
+            sel_lines = ["SEL\t%s\t%s" % (n_, "|".join(labs)) for n_, labs in exp_sel.items()]
+            qs = []
+            for f in facts:
+                if f['kind'] == 'size':
+                    qs.append("Q\t%s\tD\t-\t-\t+" % f['class'])
+                elif f['kind'] in ('line', 'comment'):
+                    qs.append("Q\t%s\t%s\t%s\t%s\t%s" % (f['class'], 'I' if f['inv'] else 'D', f['prop'], f['ty'], f['card']))
+            lines += body[:-1] + sel_lines + qs + body[-1:]
+        res = model.run_driver(lines, spec_only=True)
+        kf01 = F.load("C01")
+        for j, (g, cfg, items, prefixes, exp_sel, parsed, out, text, got_sel) in enumerate(sm_cases):
+            facts = allfacts[j]
+            answers = res.get("q%d" % j, [])
+            k = 0
+            for f in facts:
+                if f['kind'] == 'unknown-label':
+                    continue
+                a = answers[k].split("\t")
+                k += 1
+                f['spec_n'], f['spec_N'] = int(a[1]), int(a[2])
+            for b in pipeline.fact_failures(facts, cfg):
+                if b.get('ty') == 'NONLITERAL':
+                    continue
+                viol.append({"what": "shape map: " + b['why'], "fact": {k2: v for k2, v in b.items() if k2 != 'siblings'}, "shape_map": text,
+                             "shexc": out, **pipeline.case_json(g, cfg)})
+    return sm_cases, nontriv
+
+
 def run(ctx):
     rng = random.Random(ctx.seed * 160481183 + 10)
     kf = F.load("C10")
@@ -183,150 +341,8 @@ def run(ctx):
                 for b in pipeline.fact_failures(facts, cfg):
                     if not F.match(kf01, {"fact": b, "triples": g, "cfg": cfg}):
                         viol.append({"what": "class targets: " + b['why'], "fact": {k: v for k, v in b.items() if k != 'siblings'}, **pipeline.case_json(g, cfg)})
-        # ---------- part 2: shape maps
-        from shexer.shaper import Shaper
-        lines = []
-        sm_cases = []
-        for i in range(n):
-            g = [t for t in gen.gen_graph(rng, bnodes=False) if t[0][0] == 'I' and t[2][0] != 'B']
-            if not g:
-                continue
-            if rng.random() < 0.4:
-                # local names with ':' inside (legal in prefixed names: ex:item:42)
-                ren = lambda t: ('I', t[1].replace(EX + 'n', EX + 'it:')) if t[0] == 'I' else t
-                g = [(ren(s_), p_, ren(o_)) for s_, p_, o_ in g]
-            ns = dict(DEFAULT_NS)
-            ns[SH_NS] = 'sx'
-            prefixes = {p: nsp for nsp, p in ns.items()}
-            classes = gen.classes_of(g)
-            items = [gen_item(rng, g, ns, classes, k) for k in range(rng.randint(1, 3))]
-            cfg = gen.gen_cfg(rng, g, presentation=False, allow_cap=False, allow_ignore=False)
-            cfg['report'] = 'mixed'
-            cfg['disable_comments'] = False
-            cfg['ns_dict'] = ns
-            cfg['targets'] = None
-            cfg['target_mode'] = 'all' if rng.random() < 0.25 else 'shapemap'
-            stats["mixed_mode"] += cfg['target_mode'] == 'all'
-            syntax = rng.choice(['fsm', 'fsm', 'json'])
-            delivery = rng.choice(['raw', 'file'])
-            stats["syntax"][syntax] = stats["syntax"].get(syntax, 0) + 1
-            stats["delivery"][delivery] = stats["delivery"].get(delivery, 0) + 1
-            for rs, rl, ab in items:
-                k = 'sparql' if rs.startswith('SPARQL') else ab[0]
-                stats["selector_kinds"][k] = stats["selector_kinds"].get(k, 0) + 1
-                stats["ghost_nodes"] += ab == ('node', EX + "ghost")
-            stats["items"] += len(items)
-            if syntax == 'fsm':
-                text = "# shape map\n" + "".join("%s@%s%s\n" % (rs, rl, "," if rng.random() < 0.5 else "") for rs, rl, ab in items) + "\n"
-            else:
-                text = json.dumps([{"nodeSelector": rs, "shapeLabel": rl} for rs, rl, ab in items])
-            kw = impl.shaper_kwargs(cfg)
-            kw.pop('all_classes_mode', None)
-            kw['all_classes_mode'] = cfg['target_mode'] == 'all'
-            kw['shape_map_format'] = C.FIXED_SHAPE_MAP if syntax == 'fsm' else C.JSON
-            if delivery == 'raw':
-                kw['shape_map_raw'] = text
-            else:
-                path = os.path.join(tmpdir, "sm%d.txt" % i)
-                open(path, "w").write(text)
-                kw['shape_map_file'] = path
-            try:
-                sh = Shaper(raw_graph=to_nt(g), input_format=C.NT, **kw)
-                out = sh.shex_graph(string_output=True, acceptance_threshold=cfg['th'][0] / cfg['th'][1])
-                got_sel = {k: list(v[0]) for k, v in sh._target_classes_dict.items()}
-                parsed = shex_text.parse(out)
-            except Exception as e:
-                viol.append({"what": "no result with a shape map: %s %s" % (type(e).__name__, str(e)[:150]), "shape_map": text,
-                             **pipeline.case_json(g, cfg)})
-                continue
-            exp_sel = expected_selection(g, items, cfg, prefixes)
-            if {k: sorted(v) for k, v in got_sel.items()} != {k: sorted(v) for k, v in exp_sel.items()}:
-                obs = {"kind": "selection", "got": got_sel, "expected": dict(exp_sel), "cfg": cfg, "triples": g, "items": items}
-                fid = F.match(kf, obs)
-                if fid:
-                    reproduced.add(fid)
-                else:
-                    viol.append({"what": "the nodes behind the shapes are not the nodes the shape map denotes",
-                                 "shape_map": text, "selected": {k: v for k, v in got_sel.items()}, "denoted": dict(exp_sel),
-                                 **pipeline.case_json(g, cfg)})
-                continue
-            nontriv += len(exp_sel) >= 2
-            sm_cases.append((g, cfg, items, prefixes, exp_sel, parsed, out, text, got_sel))
-        # model: resolve + shapes; spec: figures for the denoted selection
-        if ctx.driver_ok and sm_cases:
-            lines = []
-            for j, (g, cfg, items, prefixes, exp_sel, parsed, out, text, got_sel) in enumerate(sm_cases):
-                mcfg = dict(cfg)
-                if mcfg['target_mode'] != 'all':
-                    mcfg['target_mode'] = 'none'
-                body = model.case_lines(g, mcfg, 'resolve', "r%d" % j)
-                extra = ["PX\t%s\t%s" % (p, nsp) for p, nsp in prefixes.items()]
-                for rs, rl, ab in items:
-                    if rs.startswith("SPARQL"):
-                        extra.append("SMR\t%s\t%s\t%s" % (rs.replace("\t", " "), rl, "|".join(denote_rows(g, ab))))
-                    else:
-                        extra.append("SM\t%s\t%s" % (rs, rl))
-                lines += body[:-1] + extra + body[-1:]
-                # the shapes for the selection in the implementation's own dictionary order (selector rows come from rdflib
-                # in an unspecified order; ties in the merge stages are decided by that order)
-                body2 = model.case_lines(g, mcfg, 'shapessel', "s%d" % j)
-                sel_lines = ["SEL\t%s\t%s" % (n_, "|".join(labs)) for n_, labs in got_sel.items()]
-                lines += body2[:-1] + extra + sel_lines + body2[-1:]
-            res = model.run_driver(lines)
-            for j, (g, cfg, items, prefixes, exp_sel, parsed, out, text, got_sel) in enumerate(sm_cases):
-                msel = {}
-                for ln in res.get("r%d" % j, []):
-                    f = ln.split("\t")
-                    if f[0] == 'SEL':
-                        msel[f[1]] = sorted(f[2].split("|")) if f[2] else []
-                if msel != {k: sorted(v) for k, v in exp_sel.items()}:
-                    dis.append({"what": "Targets.resolve (model) vs the selection the implementation computed", "model": msel,
-                                "impl": {k: sorted(v) for k, v in exp_sel.items()}, "shape_map": text, **pipeline.case_json(g, cfg)})
-                    continue
-                ml = res.get("s%d" % j, [])
-                if ml == ["ERR"]:
-                    dis.append({"what": "model rejects a shape map the implementation accepts", "shape_map": text, **pipeline.case_json(g, cfg)})
-                    continue
-                d = compare.compare(model.parse_shapes(ml), parsed, cfg)
-                if d:
-                    dis.append({"what": "Shexer.runSel (model) vs implementation with a shape map", "diffs": d[:5], "shape_map": text,
-                                "shexc": out, **pipeline.case_json(g, cfg)})
-        if ctx.spec_ok and sm_cases:
-            lines = []
-            allfacts = []
-            for j, (g, cfg, items, prefixes, exp_sel, parsed, out, text, got_sel) in enumerate(sm_cases):
-                lm = {}
-                for n_, labs in exp_sel.items():
-                    for lab in labs:
-                        lm.setdefault(model_label_iri(lab, cfg), []).append(lab) if lab not in lm.get(model_label_iri(lab, cfg), []) else None
-                facts = oracle.facts_of(parsed, cfg, lm)
-                allfacts.append(facts)
-                body = model.case_lines(g, oracle.spec_cfg(cfg), 'spec', "q%d" % j)
-                sel_lines = ["SEL\t%s\t%s" % (n_, "|".join(labs)) for n_, labs in exp_sel.items()]
-                qs = []
-                for f in facts:
-                    if f['kind'] == 'size':
-                        qs.append("Q\t%s\tD\t-\t-\t+" % f['class'])
-                    elif f['kind'] in ('line', 'comment'):
-                        qs.append("Q\t%s\t%s\t%s\t%s\t%s" % (f['class'], 'I' if f['inv'] else 'D', f['prop'], f['ty'], f['card']))
-                lines += body[:-1] + sel_lines + qs + body[-1:]
-            res = model.run_driver(lines, spec_only=True)
-            kf01 = F.load("C01")
-            for j, (g, cfg, items, prefixes, exp_sel, parsed, out, text, got_sel) in enumerate(sm_cases):
-                facts = allfacts[j]
-                answers = res.get("q%d" % j, [])
-                k = 0
-                for f in facts:
-                    if f['kind'] == 'unknown-label':
-                        continue
-                    a = answers[k].split("\t")
-                    k += 1
-                    f['spec_n'], f['spec_N'] = int(a[1]), int(a[2])
-                for b in pipeline.fact_failures(facts, cfg):
-                    if b.get('ty') == 'NONLITERAL':
-                        continue
-                    viol.append({"what": "shape map: " + b['why'], "fact": {k2: v for k2, v in b.items() if k2 != 'siblings'}, "shape_map": text,
-                                 "shexc": out, **pipeline.case_json(g, cfg)})
+        sm_cases, nt2 = shape_map_family(ctx, rng, n, kf, tmpdir, stats, viol, dis, reproduced)
+        nontriv += nt2
         cases = cls_cases + [(c[0], c[1]) for c in sm_cases]
     finally:
         shutil.rmtree(tmpdir, ignore_errors=True)
